@@ -1,7 +1,7 @@
 (* C19 -- Safety analysis is total on every pickle that decompiles. *)
-From Coq Require Import List String Ascii ZArith Bool Arith Lia.
-From Verif Require Import Base Ops Interp Unparse Severity SeverityProofs AnalysisTable
-  Analysis AnalysisProofs FloorProofs.
+From Coq Require Import List String Ascii ZArith Bool Arith Lia Permutation.
+From Verif Require Import Base Ops Interp Unparse Severity SeverityProofs AnalysisTable ReportTable
+  Analysis AnalysisProofs FloorProofs ReportProofs.
 Import ListNotations.
 Local Open Scope nat_scope.
 
@@ -22,18 +22,85 @@ Qed.
 Theorem C19_verdict_is_max : forall fs f, In f fs -> doc_rank (finding_sev f) <= doc_rank (verdict fs).
 Proof. exact verdict_ge. Qed.
 
+(* The rest of the property, again for ALL interpreter states: every finding
+   - names a member of the Severity enum,
+   - carries a message that is not None and not empty (its template in the live source has literal text),
+   - has a trigger that is a string, an int or a tuple of those (placeholders of the message at its live
+     construction site, which the model binds; any other expression, e.g. an ast node, would be TOpaque),
+   - agrees in severity and analysis_name with its AnalysisResult(...) construction site in the
+     regenerated ReportTable;
+   the report to_dict() is JSON-serialisable; what check_safety writes to json_output_path is that report;
+   and whenever loader.load refuses (any threshold), UnsafeFileError.info is that same report. *)
+Theorem C19_report_wellformed : forall crepr std protos s,
+  exists fs, analyze crepr std protos s = Some fs /\
+    (* in whatever order the findings come out (the UnusedVariables ones follow the iteration order of
+       a Python set) *)
+    forall fs', Permutation fs fs' ->
+      Forall finding_good fs' /\
+      json_ok (to_dict default_verbosity fs') = true /\
+      json_file fs' = to_dict default_verbosity fs' /\
+      (forall thr info, loader thr fs' = Unsafe info ->
+                        info = to_dict default_verbosity fs' /\ json_ok info = true).
+Proof.
+  intros crepr std protos s. destruct (analyze_good crepr std protos s) as (fs & HA & HG0).
+  exists fs. split; [exact HA|]. intros fs' HP.
+  assert (Forall finding_good fs') as HG by (eapply Permutation_Forall; eauto).
+  split; [exact HG|].
+  split; [apply report_json_ok; exact HG|]. split; [reflexivity|].
+  intros thr info H. destruct (loader_same_report thr fs' info H) as [-> _].
+  split; [reflexivity | apply report_json_ok; exact HG].
+Qed.
+
+(* a verdict above the threshold is refused with the report (the loader's comparison is Severity.__le__) *)
+Theorem C19_loader_refuses : forall thr fs,
+  sev_le (verdict fs) thr = false -> loader thr fs = Unsafe (to_dict default_verbosity fs).
+Proof. exact loader_refuses. Qed.
+
+(* side conditions on the regenerated table: no analyze method yields / returns anything but an
+   AnalysisResult(...), and the construction sites are exactly the ones the model implements *)
+Theorem C19_no_raw_yield : raw_yields = [].
+Proof. reflexivity. Qed.
+
+Theorem C19_sites_modelled :
+  map fst report_sites =
+  [("DuplicateProtoAnalysis", 0); ("DuplicateProtoAnalysis", 1); ("MisplacedProtoAnalysis", 0);
+   ("NonStandardImports", 0); ("UnsafeImportsML", 0); ("UnsafeImportsML", 1); ("UnsafeImportsML", 2);
+   ("BadCalls", 0); ("OvertlyBadEvals", 0); ("OvertlyBadEvals", 1); ("UnsafeImports", 0);
+   ("UnusedVariables", 0); ("MLAllowlist", 0); ("MLAllowlist", 1)]%string.
+Proof. reflexivity. Qed.
+
 (* regression witness for the pinned defect: `from foo import eval` (module outside the per-name
    denylist) is answered with a LIKELY_OVERTLY_MALICIOUS finding instead of crashing *)
 Example C19_import_eval :
   match run [OGlobal "foo" "eval"; OStop] with
   | Ok s => match analyze (fun _ => ""%string) (fun _ => false) [] s with
             | Some fs => doc_rank (verdict fs) = 4 /\
-                         existsb (fun f => String.eqb (f_analysis f) "UnsafeImportsML") fs = true
+                         existsb (fun f => String.eqb (f_analysis f) "UnsafeImportsML") fs = true /\
+                         loader LIKELY_SAFE fs = Unsafe (to_dict default_verbosity fs)
             | None => False
             end
   | Err _ => False
   end.
 Proof. vm_compute. auto. Qed.
 
+(* non-vacuity of the loader clause and of the trigger shapes: an unused call result (tuple trigger),
+   a duplicate PROTO (int trigger) and an import (string trigger) in one report *)
+Example C19_nonvacuous :
+  match run [OGlobal "os" "getcwd"; OEmptyTuple; OReduce; OPop; OConst CNone; OStop] with
+  | Ok s => match analyze (fun _ => "None"%string) (fun _ => true) [(0, 2%Z); (3, 2%Z)] s with
+            | Some fs => List.length fs = 5 /\ json_ok (to_dict default_verbosity fs) = true /\
+                         (exists info, loader LIKELY_SAFE fs = Unsafe info) /\
+                         existsb (fun f => match f_trig f with TTuple _ => true | _ => false end) fs = true /\
+                         existsb (fun f => match f_trig f with TVal (BInt _) => true | _ => false end) fs = true
+            | None => False
+            end
+  | Err _ => False
+  end.
+Proof. vm_compute. repeat split; eauto. Qed.
+
 Print Assumptions C19_total.
 Print Assumptions C19_verdict_is_max.
+Print Assumptions C19_report_wellformed.
+Print Assumptions C19_loader_refuses.
+Print Assumptions C19_no_raw_yield.
+Print Assumptions C19_sites_modelled.
